@@ -32,9 +32,9 @@ ASSUMPTIONS = ['fresh-object reference = the same source files loaded a second t
                'a fresh object, which is what the property states)',
                'icontract 2.7.3 checks invariants after __init__, around public methods and property accessors']
 EXHAUSTIVE = {'quick': False, 'thorough': False}
-MINIMA = {'quick': {'buffer_mutations': 200, 'diag_invariant': 5000, 'reads_compared': 3000, 'set:bigrams': 60, 'distinct_nontrivial': 150,
+MINIMA = {'quick': {'close_pairs': 100, 'dtype_pairs': 100, 'buffer_mutations': 200, 'diag_invariant': 5000, 'reads_compared': 3000, 'set:bigrams': 60, 'distinct_nontrivial': 150,
                     'insitu_searches': 10},
-          'thorough': {'buffer_mutations': 3000, 'diag_invariant': 100000, 'reads_compared': 50000, 'set:bigrams': 100, 'distinct_nontrivial': 2000,
+          'thorough': {'close_pairs': 1500, 'dtype_pairs': 1500, 'buffer_mutations': 3000, 'diag_invariant': 100000, 'reads_compared': 50000, 'set:bigrams': 100, 'distinct_nontrivial': 2000,
                        'insitu_searches': 80}}
 N_HIST = {'quick': 800, 'thorough': 8000}
 N_INSITU = {'quick': 24, 'thorough': 160}
@@ -171,11 +171,15 @@ def run_history(spec, r, g):
   epoch = 0
   for step in range(L):
     u = r.random()
-    if u < 0.06:
+    if u < 0.03:
+      op = ('set_x_close_pair',)
+    elif u < 0.06:
+      op = ('set_x_dtype_pair',)
+    elif u < 0.09:
       op = ('set_x_buffer', r.choice(names))
-    elif u < 0.10:
+    elif u < 0.12:
       op = ('set_y_buffer', r.randrange(0, 2))
-    elif u < 0.14:
+    elif u < 0.15:
       op = ('mutate_buffers',)
     elif u < 0.30:
       op = ('set_x', r.choice(names))
@@ -203,6 +207,30 @@ def run_history(spec, r, g):
         obj.x = x
         cur_x = np.array(x)
         epoch += 1
+      elif op[0] == 'set_x_close_pair':
+        # two different control series that agree to ~1e-11 relative (huge level, small fluctuations), one after the
+        # other: the second one is a different series and must replace the first
+        m_ = len(cur_y)
+        xa = 1e12 + pool['good'][:m_] if m_ <= n else 1e12 + np.arange(m_, dtype=float)
+        xb = 1e12 + pool['uncorr'][:m_] if m_ <= n else 1e12 - np.arange(m_, dtype=float)
+        obj.x = xa
+        _ = obj.corr, obj.pretestfit
+        obj.x = xb
+        cur_x = np.array(xb)
+        epoch += 1
+        counters['close_pairs'] += 1
+      elif op[0] == 'set_x_dtype_pair':
+        # two control series with identical raw bytes but different dtype (hence different values)
+        m_ = len(cur_y)
+        raw = (np.arange(m_) * 37 + 130) % 256
+        xa = raw.astype(np.uint8)
+        xb = xa.view(np.int8)
+        obj.x = xa
+        _ = obj.pretestfit, obj.dwtest
+        obj.x = xb
+        cur_x = np.array(xb)
+        epoch += 1
+        counters['dtype_pairs'] += 1
       elif op[0] == 'set_x_buffer':
         # the caller re-uses one work buffer (same ndarray object) for successive control series
         if len(cur_y) == n:
